@@ -123,17 +123,39 @@ theorem delete_chan_effects (s : St) (t c : String) (C : Chan)
       rw [hfl]; exact mem_removeFiles _ _
 
 
-/-- a (re-)created channel starts empty, with no consumers and zeroed counters -/
-theorem recreate_empty (s : St) (t c : String) (e : Bool) (T : Topic)
-    (hT : getTopic s t = some T) (hC : T.getChan c = none) :
-    getChan (step s (.createChan t c e)).1 t c = some (newChan c e) ∧
-    (newChan c e).located = [] ∧ (newChan c e).clients = [] ∧ (newChan c e).msgCount = 0 := by
-  refine ⟨?_, rfl, rfl, rfl⟩
+/-- a (re-)created channel starts empty, with no consumers and zeroed counters — provided no
+orphaned disk queue of that name lies under the data path (see `recreate_empty_full_false`) -/
+theorem recreate_empty_partial (s : St) (t c : String) (e : Bool) (T : Topic)
+    (hT : getTopic s t = some T) (hC : T.getChan c = none)
+    (hno : e = true ∨ orphanOf s.orphans (t, some c) = []) :
+    ∃ C, getChan (step s (.createChan t c e)).1 t c = some C ∧
+    C.located = [] ∧ C.clients = [] ∧ C.msgCount = 0 ∧ C.eph = e := by
+  have hopen : (openChan s.orphans t c e).located = [] ∧ (openChan s.orphans t c e).clients = [] ∧
+      (openChan s.orphans t c e).msgCount = 0 ∧ (openChan s.orphans t c e).eph = e ∧
+      (openChan s.orphans t c e).name = c := by
+    unfold openChan
+    cases e with
+    | true => simp [newChan, Chan.located]
+    | false =>
+      have h0 : orphanOf s.orphans (t, some c) = [] := by
+        cases hno with
+        | inl h => cases h
+        | inr h => exact h
+      simp [h0, Chan.located]
+  refine ⟨openChan s.orphans t c e, ?_, hopen.1, hopen.2.1, hopen.2.2.1, hopen.2.2.2.1⟩
   simp only [step, hT, hC]
   unfold getChan
-  rw [getTopic_modTopic s t (fun T => T.addChan (newChan c e)) (fun _ => rfl), hT]
+  show (match getTopic (modTopic s t (fun T => T.addChan (openChan s.orphans t c e))) t with
+        | none => none | some T => T.getChan c) = _
+  rw [getTopic_modTopic s t (fun T => T.addChan (openChan s.orphans t c e)) (fun _ => rfl), hT]
   simp only [Option.map, Topic.getChan, Topic.addChan]
-  exact find_append_new _ _ _ hC (by simp [newChan])
+  exact find_append_new _ _ _ hC (by simp [hopen.2.2.2.2])
+
+/-- the unconditional claim: after a delete (or for a name never used in this process) a created
+channel is empty -/
+def RecreateEmptyFull : Prop :=
+  ∀ (s : St) (t c : String) (e : Bool) (T : Topic), getTopic s t = some T → T.getChan c = none →
+    ∀ C, getChan (step s (.createChan t c e)).1 t c = some C → C.located = []
 
 theorem delete_topic_effects (s : St) (t : String) (T : Topic) (hT : getTopic s t = some T) :
     getTopic (step s (.deleteTopic t)).1 t = none ∧
@@ -143,7 +165,7 @@ theorem delete_topic_effects (s : St) (t : String) (T : Topic) (hT : getTopic s 
   simp only [step, hT]
   have h1 : getTopic (St.mk s.memCap (s.topics.filter (fun X => X.name != t))
                 (s.closed ++ (T.chans.map (fun C => C.clients.map (·.id))).flatten)
-                (s.files.filter (fun b => b.1 != t)) s.autoDeleted) t = none :=
+                (s.files.filter (fun b => b.1 != t)) s.autoDeleted s.orphans) t = none :=
     getTopic_filter_ne s t _ rfl
   refine ⟨h1, ?_, ?_, ?_⟩
   · intro c; unfold getChan; rw [h1]
